@@ -149,9 +149,9 @@ TAILSTUBS = ["janet_fiber_setcapacity:fib_realloc_stub", "janet_tuple_n:fib_tupl
 TAILCHK = ["bounds-check", "pointer-check", "signed-overflow-check"]
 TAILCLAUSE = ("janet_fiber_funcframe_tail: arity mismatch refused and nothing changes; on success fiber->frame is kept, argument k arrives unchanged in parameter slot k, "
               "missing parameters and all other new frame slots are nil, header names the callee and keeps the caller link; no access outside the live stack block")
-U(id="fib.funcframe_tail", **{"class": "bounded"}, bound="stack of at most 8 slots, callee slot count at most 4 (loops unwound with unwinding assertions); realloc modelled faithfully (old block freed); "
+U(id="fib.funcframe_tail", **{"class": "bounded"}, tier="thorough", bound="stack of at most 8 slots, callee slot count at most 4 (loops unwound with unwinding assertions); realloc modelled faithfully (old block freed); "
   "domain excludes the second reallocation in the variadic branch (see fib.funcframe_tail.regrow)",
-  clause=TAILCLAUSE, src=["fiber.c"], harness=["fib_frame_tail.c"], entry="h_funcframe_tail_b", mode="plain", defines=["-DFIB_NO_REGROW"],
+  clause=TAILCLAUSE, src=["fiber.c"], link=["wrap.c"], link_keep={"wrap.c": ["janet_nanbox_from_bits"]}, harness=["fib_frame_tail.c"], entry="h_funcframe_tail_b", mode="plain", defines=["-DFIB_NO_REGROW"],
   replace_calls=TAILSTUBS, functions=["janet_fiber_funcframe_tail"], checks=TAILCHK, unwind=10, unwinding_assertions=True, timeout=600, cbmc=CADICAL, object_bits=8,
   assumes=["janet_fiber_setcapacity behaves as realloc: new block with the old contents, old block freed", "janet_tuple_n / make_struct_n only read their argument range (asserted); janet_env_detach does not write the fiber",
            "memmove moves whole slots through a temporary (stub asserts that source and destination lie in a live block)"],
@@ -166,7 +166,7 @@ U(id="fib.funcframe_tail.regrow", **{"class": "bounded"}, tier="thorough", bound
                   "whatever the caller had there. Failing obligations: memmove source/destination readable/writeable (deallocated object), 'argument k arrives unchanged', 'missing parameters and locals are nil'. "
                   "Reproducer: (defn B [&opt b1 b2 b3 b4 b5 b6 b7 b8 b9 b10 & rest] [b1 b2 b3 b10 rest]) (def A (eval ~(fn A [] ,;(seq [i :range [0 50]] ~(var ,(symbol \"l\" i) ,(+ 1000 i))) (set l0 (+ l1 l2)) (B)))) "
                   "(pp (resume (fiber/new A))) prints (nil 2003 1001 nil nil) instead of (nil nil nil nil ()).",
-  clause=TAILCLAUSE + " - including calls that regrow the stack for the rest slot", src=["fiber.c"], harness=["fib_frame_tail.c"], entry="h_funcframe_tail_b", mode="plain",
+  clause=TAILCLAUSE + " - including calls that regrow the stack for the rest slot", src=["fiber.c"], link=["wrap.c"], link_keep={"wrap.c": ["janet_nanbox_from_bits"]}, harness=["fib_frame_tail.c"], entry="h_funcframe_tail_b", mode="plain",
   replace_calls=TAILSTUBS, functions=["janet_fiber_funcframe_tail"], checks=TAILCHK, unwind=10, unwinding_assertions=True, timeout=600, cbmc=CADICAL, object_bits=8,
   assumes=["janet_fiber_setcapacity behaves as realloc: new block with the old contents, old block freed"],
   mutants=[
